@@ -9,7 +9,7 @@ def run(ck):
     ck.rule = ("TLC enumerates every sequence (in address order) of up to MaxNodes connected gateways over the measurement kinds {none, only "
                "stale samples, recent average 10/20/30 (one or two samples), stale low sample + recent sample}, proves that 'first three, then the "
                "stable sort as coded' meets the statement, and the lists returned by the real getConnectedNodes (real rtt.Instrumentation on a "
-               "controlled clock, seeded sample ages and addresses) are judged by the NodesDecl predicate in TLC; non-trivial = at least two "
+               "controlled clock, seeded sample ages and addresses) are judged by the NodesDecl predicate in TLC; a client built without a recorder (every node unmeasured) is asked with 0..MaxNodes+2 connections; non-trivial = at least two "
                "nodes of different kinds, or more than three nodes")
     n = 5 if ck.thorough else 4
     consts = {"MaxNodes": n}
@@ -22,10 +22,19 @@ def run(ck):
     if not cases:
         raise vf.Infra("no cases")
     b = bg()
-    recs = ck.drive(b, ["nodes"], input_lines=[c["c"] for c in cases], timeout=900)
-    byi = {x["i"]: x["o"] for x in recs if "i" in x}
-    if len(byi) != len(cases):
-        raise vf.Infra("driver answered %d of %d cases\n%s" % (len(byi), len(cases), getattr(ck, "last_stderr", "")[-1500:]))
+    norec = [] if ck.replay is not None and not ck.replay.get("norecorder") else [{"c": ["none"] * k, "e": list(range(1, min(3, k) + 1)), "norecorder": True} for k in range(0, n + 3)]
+    if ck.replay is not None and ck.replay.get("norecorder"):
+        cases, norec = [], [ck.replay]
+    byi = {}
+    for off, part, args in ((0, cases, ["nodes"]), (len(cases), norec, ["nodes", "norecorder"])):     # with the RTT recorder / a client built without one
+        if not part:
+            continue
+        recs = ck.drive(b, args, input_lines=[c["c"] for c in part], timeout=900)
+        got = {x["i"] + off: x["o"] for x in recs if "i" in x}
+        if len(got) != len(part):
+            raise vf.Infra("driver answered %d of %d cases\n%s" % (len(got), len(part), getattr(ck, "last_stderr", "")[-1500:]))
+        byi.update(got)
+    cases = cases + norec
     obs = "\n".join(json.dumps({"c": c["c"], "o": byi[i]}) for i, c in enumerate(cases)) + "\n"
     r2 = ck.tlc("ClientCfg", "MC_ClientCfg_nodes_obs.cfg", files={"obs_nodes.ndjson": obs}, constants=consts, timeout=900)
     verdict = {rec["c"] - 1: rec["e"] for rec in r2.printed}
@@ -34,7 +43,7 @@ def run(ck):
     differs = short = 0
     for i, c in enumerate(cases):
         ks, o, v = c["c"], byi[i], verdict[i]
-        ck.count(ks, len(set(ks)) > 1 or len(ks) > 3)
+        ck.count(json.dumps([ks, bool(c.get("norecorder"))]), len(set(ks)) > 1 or len(ks) > 3)
         if i % (len(cases) // 5 + 1) == 0:
             ck.sample({"kinds_in_address_order": ks, "returned_positions": o, "verdict": v})
         if o == [-1]:
@@ -42,7 +51,7 @@ def run(ck):
             continue
         bad = [k for k in CLAUSES if not v[k]]
         if bad:
-            ck.violation("C50:%s:%dnodes" % ("+".join(bad), len(ks)),
+            ck.violation("C50:%s:%dnodes%s" % ("+".join(bad), len(ks), ":no-recorder" if c.get("norecorder") else ""),
                          "getConnectedNodes violates clause(s) %s: measurement kinds in address order=%s, returned positions=%s (kinds %s)"
                          % (bad, ks, o, [ks[p - 1] if 0 < p <= len(ks) else "?" for p in o]), c)
         else:
